@@ -23,6 +23,16 @@ def _init_worker():
     import warnings
     warnings.filterwarnings("ignore")
     os.environ.setdefault("OMP_NUM_THREADS", "1")
+    # never outlive the checking process (a killed ./check must not leave workers computing)
+    import threading
+    parent = os.getppid()
+
+    def watchdog():
+        while True:
+            time.sleep(2.0)
+            if os.getppid() != parent:
+                os._exit(1)
+    threading.Thread(target=watchdog, daemon=True).start()
 
 
 def load_known():
